@@ -154,6 +154,10 @@ ROWS = {
                      c_decl="", c_arg="&{obj}", c_in="vt_obj({obj}.addr);", vals=["1"] * 6, needs_obj=True),
 }
 
+# typedefs (docs/tutorial.rst "Typedef"): the library's header names a native type; the wrappers see through it
+ROWS["tdint_v"] = dict(ROWS["int_v"], yaml="TypeID {n}", cxx="TypeID {n}")
+ROWS["tdstr_in"] = dict(ROWS["cstr_in"], yaml="const Name *{n}", cxx="const Name *{n}")
+
 RESULTS = {
     "void": dict(yaml="void", cxx="void", ty="none"),
     "int": dict(yaml="int", cxx="int", ty="int", lib_make="int rv = (int)(acc % 100000) + 3;", lib_out="vt_int(rv);",
@@ -192,6 +196,8 @@ RESULTS = {
                   lib_out="vt_arr_int(rv, 3);", c_decl="int *rv;", c_out="vt_arr_int(rv, 3);"),
 }
 
+
+RESULTS["tdint"] = dict(RESULTS["int"], yaml="TypeID", cxx="TypeID", lib_make="TypeID rv = (TypeID)(acc % 100000) + 3;")
 
 def F(name, result, params, **kw):
     d = {"name": name, "result": result, "params": params, "kind": "func"}
@@ -308,6 +314,9 @@ FROWS = {
     "arr2_out": dict(decl="integer(C_INT), allocatable :: {n}(:,:)", set="continue", arg="{n}", fout=F2D, vk="int"),
 }
 
+FROWS["tdint_v"] = dict(FROWS["int_v"])
+FROWS["tdstr_in"] = dict(FROWS["cstr_in"])
+
 FRESULTS = {
     "void": dict(),
     "int": dict(decl="integer(C_INT) :: rv", fout="call vt_int(int(rv, C_LONG))"),
@@ -322,6 +331,9 @@ FRESULTS = {
     "iptr23": dict(decl="integer(C_INT), allocatable :: rv(:,:)",
                    fout="call vt_arr_int([int(size(rv, 1), C_INT), int(size(rv, 2), C_INT), reshape(rv, [size(rv)])], int(size(rv), C_LONG) + 2_C_LONG)"),
 }
+
+
+FRESULTS["tdint"] = dict(FRESULTS["int"])
 
 
 def vector_cases():
